@@ -77,7 +77,7 @@ Lemma j_tstep_A : forall cfg s t a s' t' evs A B k,
 Proof.
   intros cfg s t a s' t' evs A B k Hinv HT Hs Hj.
   destruct a; cbn [tstep] in Hs.
-  - (* TBegin *)
+  - (* KBegin *)
     pose proof Hj as [Hj1 Hj2].
     destruct (negb (q_idle (t_ph t))) eqn:Eidle; [discriminate|]. apply negb_false_iff in Eidle.
     specialize (Hj1 Eidle). subst A.
@@ -90,7 +90,7 @@ Proof.
         rewrite (acount_abs s Hinv). unfold disabled. apply orb_false_iff in Edis. destruct Edis as [E1 E2]. rewrite E1, E2.
         cbn [negb andb orb]. reflexivity.
       * split; [intros Hq; discriminate Hq|]. intros _. cbn. repeat split.
-  - (* TSnap *)
+  - (* KSnap *)
     destruct (t_ph t) eqn:Eph; try discriminate. destruct (memn p vis); [discriminate|]. cbv zeta in Hs.
     assert (Hi : q_idle (t_ph t) = false) by (rewrite Eph; reflexivity).
     pose proof Hj as [Hj1 Hj2].
@@ -122,7 +122,7 @@ Proof.
       * eexists. split; [reflexivity|].
         apply (jt_upd t _ A); [exact Hj|exact Hi|reflexivity|first [reflexivity|cbn; congruence]|congruence|congruence|congruence|congruence|].
         intros _. cbn [t_force t_g t_cands]. split; [reflexivity|]. exact D2.
-  - (* TSnapEnd *)
+  - (* KSnapEnd *)
     destruct (t_ph t) eqn:Eph; try discriminate.
     assert (Hi : q_idle (t_ph t) = false) by (rewrite Eph; reflexivity).
     pose proof Hj as [Hj1 Hj2].
@@ -137,14 +137,14 @@ Proof.
       cbn [cmon2 cmon2_step m2_get m2_set m2_A m2_B m2_a]. rewrite X1, X2.
       cbn [negb closed_code2 Z.eqb is_nil]. rewrite andb_false_r. reflexivity.
     + exists A. split; [cbn [cmon2 cmon2_step]; reflexivity|exact Hsort].
-  - (* TSortEnd *)
+  - (* KSortEnd *)
     destruct (t_ph t) eqn:Eph; try discriminate. destruct (forallb _ _); [|discriminate].
     assert (Hi : q_idle (t_ph t) = false) by (rewrite Eph; reflexivity).
     pose proof Hj as [Hj1 Hj2].
     destruct (t_force t) eqn:Ef; inversion Hs; subst s' t' evs; exists A; (split; [reflexivity|]).
     + apply (jt_same t); [exact Hj|exact Hi|reflexivity|first [reflexivity|cbn; congruence]|intros _; split; reflexivity].
     + apply (jt_same t); [exact Hj|exact Hi|reflexivity|cbn; congruence|intros _; split; reflexivity].
-  - (* TSelect *)
+  - (* KSelect *)
     destruct (t_ph t) eqn:Eph; try discriminate.
     assert (Hi : q_idle (t_ph t) = false) by (rewrite Eph; reflexivity).
     pose proof Hj as [Hj1 Hj2].
@@ -181,7 +181,7 @@ Proof.
       rewrite (temp_tracked s p Hinv En2), En1. cbn [andb]. rewrite abs_set_peer. reflexivity.
     + apply (jt_same t); [exact Hj|exact Hi|reflexivity|first [reflexivity|cbn; congruence]|].
       intros _. cbn [set_cands t_g t_cands]. split; [reflexivity|apply mark2_pids].
-  - (* TFinish *)
+  - (* KFinish *)
     destruct (t_ph t) eqn:Eph; try discriminate.
     assert (Hi : q_idle (t_ph t) = false) by (rewrite Eph; reflexivity).
     pose proof Hj as [Hj1 Hj2].
@@ -203,7 +203,7 @@ Lemma j_tstep_B : forall cfg s t a s' t' evs A B k,
 Proof.
   intros cfg s t a s' t' evs A B k Hinv HT Hs Hj.
   destruct a; cbn [tstep] in Hs.
-  - (* TBegin *)
+  - (* KBegin *)
     pose proof Hj as [Hj1 Hj2].
     destruct (negb (q_idle (t_ph t))) eqn:Eidle; [discriminate|]. apply negb_false_iff in Eidle.
     specialize (Hj1 Eidle). subst B.
@@ -216,7 +216,7 @@ Proof.
         rewrite (acount_abs s Hinv). unfold disabled. apply orb_false_iff in Edis. destruct Edis as [E1 E2]. rewrite E1, E2.
         cbn [negb andb orb]. reflexivity.
       * split; [intros Hq; discriminate Hq|]. intros _. cbn. repeat split.
-  - (* TSnap *)
+  - (* KSnap *)
     destruct (t_ph t) eqn:Eph; try discriminate. destruct (memn p vis); [discriminate|]. cbv zeta in Hs.
     assert (Hi : q_idle (t_ph t) = false) by (rewrite Eph; reflexivity).
     pose proof Hj as [Hj1 Hj2].
@@ -248,7 +248,7 @@ Proof.
       * eexists. split; [reflexivity|].
         apply (jt_upd t _ B); [exact Hj|exact Hi|reflexivity|first [reflexivity|cbn; congruence]|congruence|congruence|congruence|congruence|].
         intros _. cbn [t_force t_g t_cands]. split; [reflexivity|]. exact D2.
-  - (* TSnapEnd *)
+  - (* KSnapEnd *)
     destruct (t_ph t) eqn:Eph; try discriminate.
     assert (Hi : q_idle (t_ph t) = false) by (rewrite Eph; reflexivity).
     pose proof Hj as [Hj1 Hj2].
@@ -263,14 +263,14 @@ Proof.
       cbn [cmon2 cmon2_step m2_get m2_set m2_A m2_B m2_a]. rewrite X1, X2.
       cbn [negb closed_code2 Z.eqb is_nil]. rewrite andb_false_r. reflexivity.
     + exists B. split; [cbn [cmon2 cmon2_step]; reflexivity|exact Hsort].
-  - (* TSortEnd *)
+  - (* KSortEnd *)
     destruct (t_ph t) eqn:Eph; try discriminate. destruct (forallb _ _); [|discriminate].
     assert (Hi : q_idle (t_ph t) = false) by (rewrite Eph; reflexivity).
     pose proof Hj as [Hj1 Hj2].
     destruct (t_force t) eqn:Ef; inversion Hs; subst s' t' evs; exists B; (split; [reflexivity|]).
     + apply (jt_same t); [exact Hj|exact Hi|reflexivity|first [reflexivity|cbn; congruence]|intros _; split; reflexivity].
     + apply (jt_same t); [exact Hj|exact Hi|reflexivity|cbn; congruence|intros _; split; reflexivity].
-  - (* TSelect *)
+  - (* KSelect *)
     destruct (t_ph t) eqn:Eph; try discriminate.
     assert (Hi : q_idle (t_ph t) = false) by (rewrite Eph; reflexivity).
     pose proof Hj as [Hj1 Hj2].
@@ -307,7 +307,7 @@ Proof.
       rewrite (temp_tracked s p Hinv En2), En1. cbn [andb]. rewrite abs_set_peer. reflexivity.
     + apply (jt_same t); [exact Hj|exact Hi|reflexivity|first [reflexivity|cbn; congruence]|].
       intros _. cbn [set_cands t_g t_cands]. split; [reflexivity|apply mark2_pids].
-  - (* TFinish *)
+  - (* KFinish *)
     destruct (t_ph t) eqn:Eph; try discriminate.
     assert (Hi : q_idle (t_ph t) = false) by (rewrite Eph; reflexivity).
     pose proof Hj as [Hj1 Hj2].
